@@ -16,6 +16,10 @@ type JApiCore struct {
 	// processedUserTypes a "set" of already build user types.
 	processedUserTypes map[string]struct{}
 
+	// userTypesInProgress a "set" of user types whose compilation has started
+	// and isn't finished yet (they are on the recursion stack).
+	userTypesInProgress map[string]struct{}
+
 	// processedByAllOf a "set" of already processed types by allOf.
 	processedByAllOf map[string]struct{}
 
@@ -113,6 +117,7 @@ func NewJApiCore(file *fs.File, oo ...Option) *JApiCore {
 	core := &JApiCore{
 		userTypes:              &catalog.UserSchemas{},
 		processedUserTypes:     make(map[string]struct{}, 30),
+		userTypesInProgress:    make(map[string]struct{}, 30),
 		processedByAllOf:       map[string]struct{}{},
 		scanner:                scanner.NewJApiScanner(file),
 		catalog:                catalog.NewCatalog(),
